@@ -53,7 +53,25 @@ def zdebug_section(data, level, size=None):
 
 def build_container(payload, meta, tr, extra_sections=()):
     """payload: {name: bytes}; meta: {'cls','le','e_machine','eh_addr'}; tr: transform spec.
-    -> {'main': bytes, 'files': {name bytes: bytes}}"""
+    -> {'main': bytes, 'files': {name bytes: bytes}}
+    tr['stray_link'] (any transform but 'link'): the file keeps its own debug sections AND carries a .gnu_debuglink naming another file
+    (what objcopy --add-gnu-debuglink leaves in an unstripped file); that other file has no debug information ('ok': right CRC) or does
+    not match the CRC ('badcrc'), so consulting it instead of the file's own sections shows."""
+    if tr.get('stray_link') and tr['t'] != 'link':
+        decoy = _build_container({'.comment': b'decoy\0'}, meta, {'t': 'plain'})['main']
+        crc = zlib.crc32(decoy) & 0xffffffff
+        if tr['stray_link'] == 'badcrc':
+            crc ^= 0x10
+        fname = b'other.debug'
+        link = fname + b'\0' + b'\0' * (-(len(fname) + 1) % 4) + D.u(meta['le'], 4, crc)
+        c = _build_container(payload, meta, tr, list(extra_sections) + [('.gnu_debuglink', link, 0)])
+        c['files'] = dict(c['files'])
+        c['files'][fname] = decoy
+        return c
+    return _build_container(payload, meta, tr, extra_sections)
+
+
+def _build_container(payload, meta, tr, extra_sections=()):
     cls, le = meta['cls'], meta['le']
 
     def elf(sections):
@@ -219,6 +237,8 @@ def compare_transforms(ctx, payload, meta, transforms, case, ref=None, what='gen
     n = 0
     for tr in transforms:
         name = tr['t'] + ('/' + tr['which'] if tr.get('which') and tr['which'] != 'all' else '') + ('/info-plain' if tr.get('info_plain') else '') + ('/inner=' + tr['inner']['t'] if tr.get('inner') else '')
+        if tr.get('stray_link') and tr['t'] != 'link':
+            name += '+stray-debuglink'
         try:
             c = build_container(payload, meta, tr)
             ef = open_container(c)
@@ -412,12 +432,16 @@ def rand_transforms(ch, allow_link=True):
         t = ch.choice(['gabi', 'gabi', 'zdebug', 'link', 'link'] if allow_link else ['gabi', 'zdebug'])
         if t == 'gabi':
             out.append({'t': 'gabi', 'which': ch.choice(['all', 'all', 'some']), 'phase': ch.int(0, 1), 'level': ch.int(0, 9), 'at_eof': ch.bool(0.3)})
+            if ch.bool(0.25):
+                out[-1]['stray_link'] = ch.choice(['ok', 'badcrc'])
         elif t == 'zdebug':
             if ch.bool(0.4):
                 # mixed naming: GNU tools rename only the sections that shrink (either .debug_info or its siblings may stay plain)
                 out.append({'t': 'zdebug', 'which': 'some', 'phase': ch.int(0, 1), 'info_plain': ch.bool(), 'level': ch.int(0, 9)})
             else:
                 out.append({'t': 'zdebug', 'which': 'all', 'level': ch.int(0, 9), 'at_eof': ch.bool(0.3)})
+            if ch.bool(0.35):
+                out[-1]['stray_link'] = ch.choice(['ok', 'badcrc'])
         else:
             out.append({'t': 'link', 'crc_ok': True, 'inner': ch.choice([{'t': 'plain'}, {'t': 'gabi', 'which': 'all', 'level': 6}, {'t': 'zdebug', 'which': 'all', 'level': 1}]),
                         'fname': ch.choice([b'x.debug', b'a', b'ab', b'abc', b'abcd', b'dir/file.debug']), 'keep_eh': ch.bool()})
@@ -491,6 +515,8 @@ def sweep(tier):
              {'t': 'link', 'crc_ok': True, 'inner': {'t': 'plain'}, 'fname': b'f.debug', 'keep_eh': True},
              {'t': 'link', 'crc_ok': True, 'inner': {'t': 'gabi', 'which': 'all', 'level': 3}, 'fname': b'abc'},
              {'t': 'link', 'crc_ok': False, 'crc_xor': 1, 'fname': b'f.debug'},
+             {'t': 'plain', 'stray_link': 'ok'}, {'t': 'zdebug', 'which': 'all', 'level': 6, 'stray_link': 'badcrc'}, {'t': 'gabi', 'which': 'all', 'level': 6, 'stray_link': 'ok'},
+             {'t': 'zdebug', 'which': 'some', 'phase': 0, 'info_plain': True, 'level': 6, 'stray_link': 'ok'},
              {'t': 'gabi', 'which': 'all', 'bad_size': 1}, {'t': 'gabi', 'which': 'all', 'bad_size': -1},
              {'t': 'zdebug', 'which': 'all', 'bad_size': 1}, {'t': 'zdebug', 'which': 'all', 'bad_size': -1}]
     if tier == 'quick':
